@@ -28,6 +28,10 @@ type Mutant struct {
 	Benign bool
 	Why    string
 	More   []Edit // additional replacements (same or other files) belonging to the same variant
+	// OwnOnly: a "benign" variant that is silent for its own property only (e.g. a repair-shaped
+	// variant that introduces a construct another property legitimately reports); excluded from
+	// the cross-property benign run.
+	OwnOnly bool
 }
 
 // Edit is one exact-text replacement.
@@ -186,3 +190,59 @@ func lastLines(s string, n int) string {
 	}
 	return strings.Join(lines, " | ")
 }
+
+// runCrossBenign runs every benign variant against all properties (a behaviour-preserving edit made
+// for one rule must not trip a rule of another property that looks at the same code).
+func runCrossBenign(repo, verifDir, filter string) int {
+	var sel []Mutant
+	for _, m := range mutants {
+		if m.Benign && !m.OwnOnly && (filter == "all" || strings.Contains(m.Name, filter)) {
+			mm := m
+			mm.Prop = "all"
+			sel = append(sel, mm)
+		}
+	}
+	tmp, err := os.MkdirTemp("", "pkocheck-cross-")
+	if err != nil {
+		fmt.Println("cannot create temp dir:", err)
+		return 2
+	}
+	defer os.RemoveAll(tmp)
+	exe, _ := os.Executable()
+	outs := make([]MutantOutcome, len(sel))
+	sem := make(chan struct{}, 8)
+	var wg sync.WaitGroup
+	for i, m := range sel {
+		i, m := i, m
+		wg.Add(1)
+		go func() {
+			defer wg.Done()
+			sem <- struct{}{}
+			defer func() { <-sem }()
+			outs[i] = runOneMutant(exe, repo, verifDir, tmp, i, m)
+			outs[i].Name = mutants0Prop(m.Name)
+		}()
+	}
+	wg.Wait()
+	bad := 0
+	silent, na := 0, 0
+	for _, o := range outs {
+		switch o.Outcome {
+		case "silent":
+			silent++
+		case "not-applicable":
+			na++
+			fmt.Printf("CROSS not-applicable %s: %s\n", o.Name, o.Detail)
+		default:
+			bad++
+			fmt.Printf("CROSS fired %s (%s): %s\n", o.Name, o.File, o.Detail)
+		}
+	}
+	fmt.Printf("cross-benign: %d variants, %d silent, %d not-applicable, %d fired\n", len(outs), silent, na, bad)
+	if bad > 0 {
+		return 1
+	}
+	return 0
+}
+
+func mutants0Prop(n string) string { return n }
